@@ -190,7 +190,42 @@ const replayTestTemplate = `//go:build verif
 
 package PKGNAME
 
-import "testing"
+import (
+	"testing"
+	tvjson "encoding/json"
+	tvos "os"
+	tvstr "strings"
+)
+
+// TestVerifVectors runs the harness natively on a list of concrete vectors (translator validation).
+func TestVerifVectors(t *testing.T) {
+	p := tvos.Getenv("VERIF_VECTORS")
+	if p == "" {
+		t.Skip("no vectors")
+	}
+	b, err := tvos.ReadFile(p)
+	if err != nil {
+		t.Fatal(err)
+	}
+	var vecs []*verifVector
+	if err := tvjson.Unmarshal(b, &vecs); err != nil {
+		t.Fatal(err)
+	}
+	for i, v := range vecs {
+		if v.Inputs == nil {
+			v.Inputs = map[string]uint64{}
+		}
+		if v.UF == nil {
+			v.UF = map[string]map[string]uint64{}
+		}
+		if v.Params == nil {
+			v.Params = map[string]int{}
+		}
+		verifVec = v
+		violated, msg := verifRunNative(ENTRY)
+		t.Logf("VERIF-VEC %d violated=%v obs=%q msg=%q", i, violated, tvstr.Join(verifObsLog, "|"), msg)
+	}
+}
 
 func TestVerifReplay(t *testing.T) {
 	violated, msg := verifRunNative(ENTRY)
